@@ -61,7 +61,15 @@ def run_case(case, ctx):
     pat, rep, built, S = build_case(rng, case)
     atol = case["atol"]
     P = patterns.to_atoms(pat)
-    R = replcase.rep_to_atoms(rep)
+    # one case in three: the replacement (and sometimes the structure) carries extra per-atom columns, as patterns loaded from CIF do
+    rkw = {}
+    if case["s"] % 3 == 0 and len(rep["elements"]):
+        rkw = dict(extra_atom_labels=["_atom_site_occupancy", "_atom_site_vmon_r"], extra_atom_fields=[["1.0", "r%d" % i] for i in range(len(rep["elements"]))])
+        if case["s"] % 2 == 0:
+            S.extra_atom_labels = type(S.extra_atom_labels)(["_atom_site_occupancy"])
+            S.extra_atom_fields = np.array([["0.5"] for _ in range(len(S))], dtype=object)
+        st.count("replacements_bringing_new_extra_columns")
+    R = replcase.rep_to_atoms(rep, **rkw)
     f = case["fraction"]
     snaps = (clone(S), clone(P), clone(R))
     events.SCHEDULE["sample"] = case["sample"]
@@ -218,6 +226,8 @@ def requirements(stats, tier):
     for s in ("first", "last", "real"):
         if not stats.has("sample_schedule", s):
             need.append("sample schedule %s not observed" % s)
+    if stats.get("replacements_bringing_new_extra_columns") < 50:
+        need.append("replacements whose pattern brings new extra columns: %d" % stats.get("replacements_bringing_new_extra_columns"))
     if stats.get("event.sample") < 50:
         need.append("random.sample inside mofun observed only %d times" % stats.get("event.sample"))
     if stats.nseen("cell_class") < len(planted.CELL_CLASSES):
